@@ -22,7 +22,9 @@ import (
 	"github.com/caddyserver/caddy/v2"
 	_ "github.com/caddyserver/caddy/v2/modules/caddyevents"
 	"github.com/caddyserver/caddy/v2/modules/caddyhttp"
+	_ "github.com/caddyserver/caddy/v2/modules/caddyhttp/push"
 	_ "github.com/caddyserver/caddy/v2/modules/caddyhttp/reverseproxy"
+	_ "github.com/caddyserver/caddy/v2/modules/caddyhttp/reverseproxy/fastcgi"
 	_ "github.com/caddyserver/caddy/v2/modules/caddyhttp/rewrite"
 	_ "github.com/caddyserver/caddy/v2/modules/caddypki"
 	_ "github.com/caddyserver/caddy/v2/modules/caddytls"
@@ -138,7 +140,7 @@ func parseSite(f []string) (*script, [4]hdrTab, bool) {
 	}
 	sc.route = f[5]
 	switch sc.route {
-	case "ok", "err", "herr", "px", "pxe", "rl", "rle":
+	case "ok", "err", "herr", "px", "pxe", "rl", "rle", "fcg":
 	default:
 		return nil, obs, false
 	}
@@ -186,11 +188,17 @@ func (p *Probe) ServeHTTP(w http.ResponseWriter, r *http.Request, next caddyhttp
 			r.Header[k] = append([]string(nil), v...)
 		}
 		sc.tmid = cloneTab(r.Header)
-		for k, v := range sc.tset {
-			w.Header()[k] = append([]string(nil), v...)
+		if !sc.setInErrorRoute() {
+			for k, v := range sc.tset {
+				w.Header()[k] = append([]string(nil), v...)
+			}
 		}
 		return next.ServeHTTP(w, r)
 	case "errh":
+		// the error route answers with its own (credential-bearing) response headers
+		for k, v := range sc.tset {
+			w.Header()[k] = append([]string(nil), v...)
+		}
 		if sc.e == 2 {
 			return errors.New("verif error-route error")
 		}
@@ -211,7 +219,9 @@ func (p *Probe) ServeHTTP(w http.ResponseWriter, r *http.Request, next caddyhttp
 
 // Transport is a reverse-proxy transport that records the outgoing request and either
 // fabricates the upstream response or performs a real HTTP/1.1 round trip to a local upstream.
-type Transport struct{}
+type Transport struct {
+	fcgi http.RoundTripper
+}
 
 func (Transport) CaddyModule() caddy.ModuleInfo {
 	return caddy.ModuleInfo{ID: "http.reverse_proxy.transport.verif_c20", New: func() caddy.Module { return new(Transport) }}
@@ -223,7 +233,61 @@ var (
 	deadAddr      string
 )
 
-func (Transport) RoundTrip(req *http.Request) (*http.Response, error) {
+// Upstream trailer fields travel in the upstream table under prefixed keys:
+// "Trailer:<name>" = a trailer the upstream did not announce, "Announced:<name>" = an announced one.
+const (
+	unannounced = "Trailer:"
+	announced   = "Announced:"
+)
+
+func splitTrailers(t hdrTab) (hdr, unann, ann hdrTab) {
+	hdr, unann, ann = hdrTab{}, hdrTab{}, hdrTab{}
+	for k, v := range t {
+		switch {
+		case strings.HasPrefix(k, unannounced):
+			unann[strings.TrimPrefix(k, unannounced)] = v
+		case strings.HasPrefix(k, announced):
+			ann[strings.TrimPrefix(k, announced)] = v
+		default:
+			hdr[k] = v
+		}
+	}
+	return
+}
+
+// trailerBody fills the response's trailers when the body has been read to the end, like net/http does.
+type trailerBody struct {
+	io.Reader
+	fill func()
+}
+
+func (b *trailerBody) Read(p []byte) (int, error) {
+	n, err := b.Reader.Read(p)
+	if err == io.EOF && b.fill != nil {
+		b.fill()
+		b.fill = nil
+	}
+	return n, err
+}
+func (b *trailerBody) Close() error {
+	if b.fill != nil {
+		b.fill()
+		b.fill = nil
+	}
+	return nil
+}
+
+// Provision loads the real fastcgi transport, used for the route "fcg".
+func (t *Transport) Provision(ctx caddy.Context) error {
+	m, err := ctx.LoadModuleByID("http.reverse_proxy.transport.fastcgi", json.RawMessage(`{"dial_timeout":2000000000}`))
+	if err != nil {
+		return err
+	}
+	t.fcgi = m.(http.RoundTripper)
+	return nil
+}
+
+func (t *Transport) RoundTrip(req *http.Request) (*http.Response, error) {
 	sc, _ := req.Context().Value(scriptKey{}).(*script)
 	if sc == nil {
 		return nil, errors.New("no script")
@@ -231,8 +295,29 @@ func (Transport) RoundTrip(req *http.Request) (*http.Response, error) {
 	sc.tout = cloneTab(req.Header)
 	switch sc.route {
 	case "px":
+		hdr, unann, ann := splitTrailers(sc.tup)
 		resp := &http.Response{StatusCode: sc.status, Status: strconv.Itoa(sc.status) + " X", Proto: "HTTP/1.1", ProtoMajor: 1, ProtoMinor: 1,
-			Header: sc.tup.header(), Body: io.NopCloser(strings.NewReader("up")), ContentLength: 2, Request: req}
+			Header: hdr.header(), ContentLength: -1, Request: req}
+		if len(ann) > 0 {
+			resp.Trailer = http.Header{}
+			for k := range ann {
+				resp.Trailer[k] = nil
+			}
+		}
+		resp.Body = &trailerBody{Reader: strings.NewReader("up"), fill: func() {
+			if len(unann)+len(ann) == 0 {
+				return
+			}
+			if resp.Trailer == nil {
+				resp.Trailer = http.Header{}
+			}
+			for k, v := range ann {
+				resp.Trailer[k] = append([]string(nil), v...)
+			}
+			for k, v := range unann {
+				resp.Trailer[k] = append([]string(nil), v...)
+			}
+		}}
 		sc.tupo = cloneTab(resp.Header)
 		return resp, nil
 	case "rl", "rle":
@@ -249,6 +334,9 @@ func (Transport) RoundTrip(req *http.Request) (*http.Response, error) {
 		}
 		sc.tupo = cloneTab(resp.Header)
 		return resp, nil
+	case "fcg":
+		// the real fastcgi transport: logs its own "roundtrip" debug entry, then fails to dial 127.0.0.1:1
+		return t.fcgi.RoundTrip(req)
 	}
 	return nil, errors.New("verif transport error")
 }
@@ -261,15 +349,32 @@ func upstreamHandler(w http.ResponseWriter, r *http.Request) {
 	h := w.Header()
 	h["Date"] = nil
 	h["Content-Type"] = []string{"text/plain"}
+	var unann, ann hdrTab
 	if b, err := hex.DecodeString(r.Header.Get("X-Verif-Up")); err == nil {
 		if t, err := decHdr(string(b)); err == nil {
-			for k, v := range t {
+			var hdr hdrTab
+			hdr, unann, ann = splitTrailers(t)
+			for k, v := range hdr {
 				h[k] = append([]string(nil), v...)
 			}
 		}
 	}
+	for _, k := range sortedKeys(ann) {
+		h.Add("Trailer", k)
+	}
 	w.WriteHeader(status)
 	_, _ = w.Write([]byte("up"))
+	if len(unann)+len(ann) > 0 && status != 204 && status != 304 {
+		if f, ok := w.(http.Flusher); ok {
+			f.Flush()
+		}
+		for k, v := range ann {
+			h[k] = append([]string(nil), v...)
+		}
+		for k, v := range unann {
+			h[http.TrailerPrefix+k] = append([]string(nil), v...)
+		}
+	}
 }
 
 // ---------------------------------------------------------------- provisioned servers
@@ -289,7 +394,9 @@ func serverJSON(port int, creds, errRoutes bool) string {
 	routes := `[
   {"handle":[{"handler":"verif_c20_probe","pos":"pre"}]},
   {"match":[{"path":["/rw/*"]}],"handle":[{"handler":"rewrite","strip_path_prefix":"/rw"}]},
-  {"match":[{"path":["/rn/*"]}],"handle":[{"handler":"rewrite","strip_path_prefix":"/zz"}]},
+  {"match":[{"path":["/rn/*"]}],"handle":[{"handler":"push","resources":[{"target":"/res.css"}],
+     "headers":{"set":{"Cookie":["{http.request.header.Cookie}"],"Authorization":["{http.request.header.Authorization}"],"X-Pushed":["1"]}}},
+    {"handler":"rewrite","strip_path_prefix":"/zz"}]},
   {"match":[{"path":["/px/*","/rn/px/*"]}],"handle":[{"handler":"reverse_proxy","transport":{"protocol":"verif_c20"},"upstreams":[{"dial":"127.0.0.1:1"}]}]},
   {"handle":[{"handler":"verif_c20_probe","pos":"final"}]}
  ]`
@@ -395,6 +502,16 @@ type siteObs struct {
 	err     string
 }
 
+// setInErrorRoute: with error routes configured, a failing request gets its response headers
+// (Set-Cookie …) from the error route instead of the primary route.
+func (sc *script) setInErrorRoute() bool {
+	switch sc.route {
+	case "err", "herr", "pxe", "rle", "fcg":
+		return sc.e != 0
+	}
+	return false
+}
+
 func (sc *script) path() string {
 	p := ""
 	switch sc.rw {
@@ -404,7 +521,7 @@ func (sc *script) path() string {
 		p = "/rn"
 	}
 	switch sc.route {
-	case "px", "pxe", "rl", "rle":
+	case "px", "pxe", "rl", "rle", "fcg":
 		return p + "/px/x"
 	}
 	return p + "/h/x"
@@ -439,12 +556,24 @@ func execSite(sc *script) siteObs {
 	rec := httptest.NewRecorder()
 	sc.tmid, sc.tout, sc.tupo, sc.tresp = nil, nil, nil, nil
 	resetSinks()
-	w.servers[sc.serverName()].ServeHTTP(rec, req)
+	func() {
+		// net/http recovers http.ErrAbortHandler (reverse_proxy panics with it when the upstream body
+		// breaks off); so does the harness
+		defer func() {
+			if p := recover(); p != nil && p != http.ErrAbortHandler {
+				panic(p)
+			}
+		}()
+		w.servers[sc.serverName()].ServeHTTP(rec, req)
+	}()
 	logs := snapshotSinks()
+	if os.Getenv("C20_DEBUG") == "2" {
+		fmt.Fprintln(os.Stderr, logs["json"])
+	}
 	sc.tresp = cloneTab(rec.Header())
 	// when a handler merges several spellings of one header (Header.Add while ranging over a map)
 	// the order of the merged values follows Go's map iteration order: compare value multisets
-	sc.tmid, sc.tout, sc.tupo, sc.tresp = sortVals(sc.tmid), sortVals(sc.tout), sortVals(sc.tupo), sortVals(sc.tresp)
+	sc.tresp = sortVals(sc.tresp)
 	obs := siteObs{logs: logs}
 	for _, line := range strings.Split(logs["json"], "\n") {
 		if line == "" {
@@ -464,11 +593,16 @@ func execSite(sc *script) siteObs {
 				obs.err = "header-object-not-arrays"
 				return
 			}
-			obs.entries = append(obs.entries, logger+"/"+obj+"="+encHdr(sortVals(t)))
+			if obj == "resp_headers" {
+				sortVals(t)
+			}
+			obs.entries = append(obs.entries, logger+"/"+obj+"="+encHdr(t))
 		}
 		reqObj, _ := m["request"].(map[string]any)
 		switch {
 		case logger == "http.handlers.rewrite" && msg == "rewrote request":
+			add("request>headers", reqObj["headers"])
+		case logger == "http.reverse_proxy.transport.fastcgi" && msg == "roundtrip":
 			add("request>headers", reqObj["headers"])
 		case logger == "http.handlers.reverse_proxy" && msg == "upstream roundtrip":
 			add("request>headers", reqObj["headers"])
@@ -502,11 +636,18 @@ func runSite(f []string) core.Outcome {
 	for i := range got {
 		if !tabEqual(got[i], want[i]) {
 			match = false
+			o.Tags = append(o.Tags, "table-mismatch:"+[]string{"mid", "out", "upo", "resp"}[i])
+			if os.Getenv("C20_DEBUG") != "" {
+				fmt.Fprintf(os.Stderr, "MISMATCH %d\n got  %q\n want %q\n", i, got[i], want[i])
+			}
 		}
 	}
 	if match {
 		o.Impl = strings.Join(append([]string{"ok"}, obs.entries...), " ")
 	} else {
+		if os.Getenv("C20_DEBUG") != "" {
+			fmt.Fprintln(os.Stderr, "OBSERVED", sc.line(true))
+		}
 		o.Impl = "table-mismatch"
 		o.Tags = append(o.Tags, "table-mismatch")
 	}
@@ -514,11 +655,69 @@ func runSite(f []string) core.Outcome {
 	return o
 }
 
+// onlyUnderTrailerKey: every log line that shows the token is an access-log line and shows it as a value
+// of a `Trailer:`-prefixed key of resp_headers (what reverse_proxy makes of an unannounced trailer).
+func onlyUnderTrailerKey(logs map[string]string, tok string) bool {
+	for _, sink := range []string{"json", "cons", "filt"} {
+		for _, l := range strings.Split(logs[sink], "\n") {
+			if !strings.Contains(l, tok) {
+				continue
+			}
+			l = strings.ReplaceAll(strings.ReplaceAll(l, `": `, `":`), `", "`, `","`) // console encoder spacing
+			if !strings.Contains(l, "http.log.access") {
+				return false
+			}
+			i := strings.Index(l, `"resp_headers":{`)
+			if i < 0 {
+				return false
+			}
+			if strings.Contains(l[:i], tok) {
+				return false
+			}
+			// inside resp_headers every occurrence must follow a "Trailer:…":[ key
+			rest := l[i:]
+			for {
+				j := strings.Index(rest, tok)
+				if j < 0 {
+					break
+				}
+				k := strings.LastIndex(rest[:j], `":[`)
+				if k < 0 {
+					return false
+				}
+				q := strings.LastIndex(rest[:k], `"`)
+				if q < 0 || !strings.HasPrefix(rest[q+1:k], "Trailer:") {
+					return false
+				}
+				rest = rest[j+len(tok):]
+			}
+		}
+	}
+	return true
+}
+
 // siteOracle: the property itself, on the bytes the real loggers wrote.
 func siteOracle(o *core.Outcome, sc *script, obs siteObs) {
 	var toks []string
+	trailerTok := map[string]bool{} // tokens that travel in an upstream trailer field
+	seenTok := map[string]bool{}
 	for _, t := range []hdrTab{sc.tin, sc.tadd, sc.tset, sc.tup, sc.tmid, sc.tout, sc.tupo, sc.tresp} {
-		toks = append(toks, credTokens(t)...)
+		for k, vs := range t {
+			if !isCredName(fieldName(k)) {
+				continue
+			}
+			for _, v := range vs {
+				for _, tok := range tokensIn(v) {
+					if !seenTok[tok] {
+						seenTok[tok] = true
+						toks = append(toks, tok)
+					}
+					if strings.HasPrefix(k, unannounced) || strings.HasPrefix(k, announced) {
+						trailerTok[tok] = true
+					}
+				}
+			}
+		}
 	}
 	if len(toks) == 0 {
 		o.Tags = append(o.Tags, "trivial")
@@ -544,9 +743,16 @@ func siteOracle(o *core.Outcome, sc *script, obs siteObs) {
 			if len(where) > 600 {
 				where = where[:600] + "…"
 			}
-			o.Failures = append(o.Failures, core.Failure{Class: "credential-in-log",
+			class := "credential-in-log"
+			if trailerTok[t] && onlyUnderTrailerKey(obs.logs, t) {
+				class = "credential-in-trailer-prefixed-key"
+				o.Tags = append(o.Tags, "site:trailer-prefixed-key-logged")
+			}
+			o.Failures = append(o.Failures, core.Failure{Class: class,
 				What: fmt.Sprintf("log_credentials is off but credential token %s was written to a log (%s)", t, where)})
-			break
+			if class == "credential-in-log" {
+				break
+			}
 		}
 		return
 	}
